@@ -9,10 +9,31 @@
 //! parameters the harness itself sent) with or without sweeps, burial runs that stop at
 //! 98/99/100/101/.. confirmations, and reorgs that un-bury or un-confirm the closing event.
 //!
+//! About half of the channels are advanced, right after `setup_channel`, through the real
+//! commitment flow (validate holder commitment 0 / activate, sign counterparty commitment 0, add
+//! keysend payments, sign counterparty commitment 1 with 1-3 HTLCs, counterparty revocation of 0,
+//! validate holder commitment 1 with the same HTLCs, revoke holder commitment 0, sometimes tell
+//! the node a preimage).  Their unilateral closes (holder or counterparty commitment 1) carry
+//! offered and received HTLC outputs of 20_000..200_000 sat.  The chain then contains spends of
+//! those outputs (holder commitment: the node's second-level HTLC-timeout / HTLC-success
+//! transaction built with `chan_utils::build_htlc_transaction`, or a direct spend by "the
+//! counterparty"; counterparty commitment: a direct sweep), sweeps of the outputs of those
+//! spenders, partial sweeps left alone for 100..130 blocks with forget requested, complete
+//! sweeps followed by burial runs, and reorgs that disconnect only the last HTLC-related sweep
+//! while the sweep of the main output stays confirmed (not re-mined, or re-mined much later).
+//!
 //! Ghost model (from the chain built here, never from the monitor): per channel
 //! `forget_requested` and the number of confirmations on the CURRENT best chain of (a) a funding
-//! double-spend, (b) a mutual close, (c) a unilateral close whose node-owned outputs are all
-//! spent (counted from the last of those transactions).
+//! double-spend, (b) a mutual close, (c) a unilateral close all of whose node-owned outputs are
+//! spent: the main output (to_local / to_remote), every HTLC output that the node offered (it gets
+//! those back by timeout whatever happens), and, where such an HTLC output of a holder commitment
+//! was spent by the node's own second-level transaction, the output of that transaction;
+//! confirmations counted from the last of those transactions.  Deliberately NOT required, so that
+//! the ghost is never stricter than the signer: HTLC outputs the node received (claimable only
+//! with a preimage; the signer tracks them only while it holds the preimage, which the node-state
+//! persistence does not guarantee across restarts), and the output of a transaction that is not
+//! the node's second-level transaction (the signer waits for output #input-index of ANY spender of
+//! a tracked HTLC output; that is a liveness matter, counted separately).
 //!
 //! Oracle 1 (after every heartbeat, restart and forget): a Ready channel missing from
 //! `node.get_channel(id0)` or from `persister.get_node_channels()` => `forget_requested` and one
@@ -25,7 +46,10 @@ use lightning_signer::bitcoin::absolute::LockTime;
 use lightning_signer::bitcoin::bip32::{ChildNumber, DerivationPath};
 use lightning_signer::bitcoin::block::Header as BlockHeader;
 use lightning_signer::bitcoin::hash_types::FilterHeader;
-use lightning_signer::bitcoin::secp256k1::{All, PublicKey, Secp256k1, SecretKey};
+use lightning_signer::bitcoin::hashes::{sha256, Hash};
+use lightning_signer::bitcoin::secp256k1::ecdsa::Signature;
+use lightning_signer::bitcoin::secp256k1::{All, Message, PublicKey, Secp256k1, SecretKey};
+use lightning_signer::bitcoin::sighash::{EcdsaSighashType, SighashCache};
 use lightning_signer::bitcoin::transaction::Version;
 use lightning_signer::bitcoin::{
     Amount, CompressedPublicKey, OutPoint, ScriptBuf, Sequence, Transaction, TxIn, TxOut, Txid,
@@ -35,19 +59,24 @@ use lightning_signer::chain::tracker::Headers;
 use lightning_signer::channel::{ChannelId, ChannelSetup, ChannelSlot, CommitmentType};
 use lightning_signer::lightning::chain::transaction::OutPoint as LdkOutPoint;
 use lightning_signer::lightning::ln::chan_utils::{
-    get_revokeable_redeemscript, get_to_countersignatory_with_anchors_redeemscript,
-    make_funding_redeemscript, ChannelPublicKeys, ChannelTransactionParameters,
-    CommitmentTransaction, CounterpartyChannelTransactionParameters, TxCreationKeys,
+    build_htlc_transaction, derive_private_key, get_htlc_redeemscript, get_revokeable_redeemscript,
+    get_to_countersignatory_with_anchors_redeemscript, make_funding_redeemscript, ChannelPublicKeys,
+    ChannelTransactionParameters, CommitmentTransaction, CounterpartyChannelTransactionParameters,
+    HTLCOutputInCommitment, TxCreationKeys,
 };
 use lightning_signer::lightning::ln::channel_keys::{
     DelayedPaymentBasepoint, HtlcBasepoint, RevocationBasepoint,
 };
-use lightning_signer::node::SpendType;
+use lightning_signer::lightning::types::payment::{PaymentHash, PaymentPreimage};
+use lightning_signer::node::{Node, SpendType};
+use lightning_signer::tx::tx::HTLCInfo2;
 use lightning_signer::txoo::proof::TxoProof;
 use lightning_signer::util::test_utils::{make_block, make_test_funding_wallet_input};
 use serde_json::{json, Value};
 use std::collections::{HashMap, HashSet};
+use std::sync::Arc;
 use std::time::Instant;
+use vls_verif::oracle::commitment_secret;
 use vls_verif::report::{self, finish, run_sharded, FinishSpec};
 use vls_verif::world::{World, WorldCfg};
 use vls_verif::{Cli, Report, Rng};
@@ -128,6 +157,22 @@ enum CloseKind {
     Counterparty,
 }
 
+/// an HTLC output of a unilateral closing transaction (known by construction)
+#[derive(Clone)]
+struct HtlcOut {
+    vout: u32,
+    value: u64,
+    /// offered by the node (an outgoing payment): the node gets it back by timeout, so it is a
+    /// node-owned output whatever happens (the only HTLC outputs the ghost requires to be spent)
+    ours_offered: bool,
+    /// received by the node, and the node was told the preimage before the close (the signer then
+    /// tracks this output too as long as it still holds the preimage; the ghost does not rely on it)
+    preimage_told: bool,
+    /// holder commitment only: the node's own second-level transaction for this output
+    /// (HTLC-timeout for an offered, HTLC-success for a received HTLC), 1 input, 1 output
+    second_level: Option<(Txid, Transaction)>,
+}
+
 struct CloseTx {
     tx: Transaction,
     txid: Txid,
@@ -136,6 +181,21 @@ struct CloseTx {
     ours: Vec<u32>,
     /// some other output (the counterparty's), if any
     theirs: Option<u32>,
+    /// HTLC outputs (empty for mutual closes and for channels that were not advanced)
+    htlcs: Vec<HtlcOut>,
+}
+
+/// state of a channel that was advanced to commitment 1 (both sides) with HTLCs
+#[derive(Clone)]
+struct Adv {
+    feerate: u32,
+    to_holder: u64,
+    to_cp: u64,
+    /// from the node's point of view
+    offered: Vec<HTLCInfo2>,
+    received: Vec<HTLCInfo2>,
+    /// payment hashes of received HTLCs whose preimage the node was told
+    told: Vec<PaymentHash>,
 }
 
 struct GChan {
@@ -146,8 +206,19 @@ struct GChan {
     stage: Stage,
     setup: Option<ChannelSetup>,
     holder_points: Option<ChannelPublicKeys>,
-    cp_point: Option<PublicKey>,
+    /// the counterparty's commitment seed (its per-commitment secrets / points derive from it)
+    cp_seed: [u8; 32],
+    /// the counterparty's funding and HTLC base secrets (to sign holder commitments)
+    cp_secrets: Option<(SecretKey, SecretKey)>,
     cp_signed: bool,
+    /// Some: commitment 1 with HTLCs is the current commitment of both sides
+    adv: Option<Adv>,
+    /// the advance stopped half-way (a refusal): no unilateral close is generated for this channel
+    adv_broken: bool,
+    /// transactions built here that spend outputs of a closing transaction or of such a spender
+    aux: HashMap<Txid, Transaction>,
+    /// height at which the last HTLC-related sweep stood before a reorg removed only it (macro)
+    stale_last_h: Option<u32>,
     funding: Option<Transaction>,
     inputs_known: bool,
     forget_requested: bool,
@@ -168,6 +239,109 @@ impl GChan {
     fn funding_txid(&self) -> Option<Txid> {
         self.funding.as_ref().map(|t| t.compute_txid())
     }
+}
+
+/// Where the unilateral close that spends the funding outpoint on the current best chain stands
+/// (everything from the harness's own chain index)
+#[derive(Clone, Copy, Debug)]
+struct UniStatus {
+    holder: bool,
+    has_htlcs: bool,
+    /// height of the (last) sweep of the node's main output; the close height if it has none;
+    /// None while unswept
+    main_h: Option<u32>,
+    has_main: bool,
+    /// HTLC outputs offered by the node that are unspent
+    missing_htlc: u32,
+    /// outputs of the node's second-level transactions (for HTLCs it offered) that are unspent
+    missing_second: u32,
+    /// height of the last required transaction seen so far (close, sweeps)
+    last_h: u32,
+    /// the last required transaction is an HTLC spend / second-level sweep strictly above main_h
+    last_is_htlc: bool,
+    /// what the signer additionally waits for and is still unspent: received HTLC outputs whose
+    /// preimage it was told, output #0 of any other spender of a tracked HTLC output
+    impl_extra_missing: u32,
+    /// height of the last transaction the signer waits for (required ones and extra ones)
+    impl_last_h: u32,
+}
+
+impl UniStatus {
+    fn qualifies(&self) -> bool {
+        self.main_h.is_some() && self.missing_htlc == 0 && self.missing_second == 0
+    }
+}
+
+fn uni_status(c: &GChan, chain: &Chain) -> Option<UniStatus> {
+    let fo = c.funding_outpoint()?;
+    let (h, by) = chain.spent.get(&fo)?;
+    let cl = c.closes.iter().find(|x| x.txid == *by && x.kind != CloseKind::Mutual)?;
+    let mut st = UniStatus {
+        holder: cl.kind == CloseKind::Holder,
+        has_htlcs: !cl.htlcs.is_empty(),
+        main_h: Some(*h),
+        has_main: !cl.ours.is_empty(),
+        missing_htlc: 0,
+        missing_second: 0,
+        last_h: *h,
+        last_is_htlc: false,
+        impl_extra_missing: 0,
+        impl_last_h: *h,
+    };
+    for v in cl.ours.iter() {
+        match chain.spent.get(&OutPoint { txid: cl.txid, vout: *v }) {
+            Some((hs, _)) => {
+                st.main_h = st.main_h.map(|m| m.max(*hs));
+                st.last_h = st.last_h.max(*hs);
+            }
+            None => st.main_h = None,
+        }
+    }
+    let mut htlc_last = 0u32;
+    for ht in cl.htlcs.iter() {
+        let spent = chain.spent.get(&OutPoint { txid: cl.txid, vout: ht.vout });
+        if ht.ours_offered {
+            match spent {
+                Some((hs, by)) => {
+                    htlc_last = htlc_last.max(*hs);
+                    let is_second = ht.second_level.as_ref().map(|(t, _)| t == by).unwrap_or(false);
+                    match chain.spent.get(&OutPoint { txid: *by, vout: 0 }) {
+                        Some((h2, _)) => {
+                            if is_second {
+                                htlc_last = htlc_last.max(*h2);
+                            }
+                            st.impl_last_h = st.impl_last_h.max(*h2);
+                        }
+                        None =>
+                            if is_second {
+                                st.missing_second += 1;
+                            } else {
+                                st.impl_extra_missing += 1;
+                            },
+                    }
+                }
+                None => st.missing_htlc += 1,
+            }
+        } else if ht.preimage_told {
+            match spent {
+                Some((hs, by)) => {
+                    st.impl_last_h = st.impl_last_h.max(*hs);
+                    match chain.spent.get(&OutPoint { txid: *by, vout: 0 }) {
+                        Some((h2, _)) => st.impl_last_h = st.impl_last_h.max(*h2),
+                        None => st.impl_extra_missing += 1,
+                    }
+                }
+                None => st.impl_extra_missing += 1,
+            }
+        }
+    }
+    st.last_h = st.last_h.max(htlc_last);
+    st.impl_last_h = st.impl_last_h.max(st.last_h);
+    st.last_is_htlc = match st.main_h {
+        Some(m) => htlc_last > m,
+        None => false,
+    };
+    Some(st)
 }
 
 /// Ghost: (confirmations, kind) of the deepest qualifying event on the current best chain
@@ -201,25 +375,21 @@ fn qualifying_depth(c: &GChan, chain: &Chain) -> (u32, &'static str) {
                         }
                     }
                     CloseKind::Holder | CloseKind::Counterparty => {
-                        let mut last = *h;
-                        let mut all = true;
-                        for v in cl.ours.iter() {
-                            match chain.spent.get(&OutPoint { txid: cl.txid, vout: *v }) {
-                                Some((hs, _)) => last = last.max(*hs),
-                                None => all = false,
-                            }
-                        }
-                        if all {
-                            let d = chain.depth_of(last);
-                            if d > best.0 {
-                                best = (
-                                    d,
-                                    if cl.kind == CloseKind::Holder {
-                                        "unilateral-holder-swept"
-                                    } else {
-                                        "unilateral-counterparty-swept"
-                                    },
-                                );
+                        // main output spent, every HTLC output the node offered spent, and the
+                        // output of each of the node's second-level transactions that did so
+                        if let Some(st) = uni_status(c, chain) {
+                            if st.qualifies() {
+                                let d = chain.depth_of(st.last_h);
+                                if d > best.0 {
+                                    best = (
+                                        d,
+                                        if cl.kind == CloseKind::Holder {
+                                            "unilateral-holder-swept"
+                                        } else {
+                                            "unilateral-counterparty-swept"
+                                        },
+                                    );
+                                }
                             }
                         }
                     }
@@ -237,6 +407,19 @@ fn situation(c: &GChan, chain: &Chain) -> &'static str {
         return k;
     }
     let confirmed = c.funding_txid().map(|t| chain.conf.contains_key(&t)).unwrap_or(false);
+    if let Some(st) = uni_status(c, chain) {
+        if st.has_htlcs {
+            return if st.main_h.is_some() && st.has_main {
+                if st.missing_htlc > 0 {
+                    "unilateral-main-swept-htlc-output-unswept"
+                } else {
+                    "unilateral-main-swept-second-level-unswept"
+                }
+            } else {
+                "unilateral-with-htlcs-unswept"
+            };
+        }
+    }
     if let Some(fo) = c.funding_outpoint() {
         if chain.spent.contains_key(&fo) {
             return "unilateral-unswept";
@@ -302,6 +485,223 @@ fn key_from(rng: &mut Rng, secp: &Secp256k1<All>) -> (SecretKey, PublicKey) {
             let pk = PublicKey::from_secret_key(secp, &sk);
             return (sk, pk);
         }
+    }
+}
+
+fn chain_spender(chain: &Chain, txid: Txid, vout: u32) -> Option<Txid> {
+    chain.spent.get(&OutPoint { txid, vout }).map(|(_, by)| *by)
+}
+
+fn htlc_hash(preimage: &[u8; 32]) -> PaymentHash {
+    PaymentHash(sha256::Hash::hash(preimage).to_byte_array())
+}
+
+/// HTLC list of a commitment in LDK form, directions from the broadcaster's side
+fn oic(offered_by_broadcaster: &[HTLCInfo2], received_by_broadcaster: &[HTLCInfo2]) -> Vec<HTLCOutputInCommitment> {
+    let mut v = vec![];
+    for (list, off) in [(offered_by_broadcaster, true), (received_by_broadcaster, false)] {
+        for h in list {
+            v.push(HTLCOutputInCommitment {
+                offered: off,
+                amount_msat: h.value_sat * 1000,
+                cltv_expiry: h.cltv_expiry,
+                payment_hash: h.payment_hash,
+                transaction_output_index: None,
+            });
+        }
+    }
+    v
+}
+
+/// BOLT-3 commitment transaction number n (forward counting) of either side, built with LDK from
+/// the channel parameters the harness itself sent
+fn build_commitment(
+    secp: &Secp256k1<All>,
+    params: &ChannelTransactionParameters,
+    holder_broadcast: bool,
+    n: u64,
+    per_commitment_point: &PublicKey,
+    feerate: u32,
+    to_broadcaster: u64,
+    to_countersignatory: u64,
+    htlcs: Vec<HTLCOutputInCommitment>,
+) -> (CommitmentTransaction, TxCreationKeys) {
+    let directed =
+        if holder_broadcast { params.as_holder_broadcastable() } else { params.as_counterparty_broadcastable() };
+    let keys = TxCreationKeys::from_channel_static_keys(
+        per_commitment_point,
+        directed.broadcaster_pubkeys(),
+        directed.countersignatory_pubkeys(),
+        secp,
+    );
+    let mut with_aux: Vec<(HTLCOutputInCommitment, ())> = htlcs.into_iter().map(|h| (h, ())).collect();
+    let tx = CommitmentTransaction::new_with_auxiliary_htlc_data(
+        INITIAL_COMMITMENT_NUMBER - n,
+        to_broadcaster,
+        to_countersignatory,
+        directed.broadcaster_pubkeys().funding_pubkey,
+        directed.countersignatory_pubkeys().funding_pubkey,
+        keys.clone(),
+        feerate,
+        &mut with_aux,
+        &directed,
+    );
+    (tx, keys)
+}
+
+/// the counterparty's signatures on a holder commitment (commitment signature + one per HTLC)
+fn cp_sign_holder_commitment(
+    secp: &Secp256k1<All>,
+    params: &ChannelTransactionParameters,
+    cp_funding: &SecretKey,
+    cp_htlc_base: &SecretKey,
+    value_sat: u64,
+    point: &PublicKey,
+    commit: &CommitmentTransaction,
+    keys: &TxCreationKeys,
+) -> (Signature, Vec<Signature>) {
+    let cpp = &params.counterparty_parameters.as_ref().unwrap().pubkeys;
+    let redeem = make_funding_redeemscript(&params.holder_pubkeys.funding_pubkey, &cpp.funding_pubkey);
+    let trusted = commit.trust();
+    let built = trusted.built_transaction();
+    let sig = built.sign_counterparty_commitment(cp_funding, &redeem, value_sat, secp);
+    let htlc_key = derive_private_key(secp, point, cp_htlc_base);
+    let contest_delay = params.counterparty_parameters.as_ref().unwrap().selected_contest_delay;
+    let anchors = params.channel_type_features.supports_anchors_zero_fee_htlc_tx()
+        || params.channel_type_features.supports_anchors_nonzero_fee_htlc_tx();
+    let sighash_type = if anchors { EcdsaSighashType::SinglePlusAnyoneCanPay } else { EcdsaSighashType::All };
+    let mut sigs = vec![];
+    for htlc in commit.htlcs() {
+        let htlc_tx = build_htlc_transaction(
+            &built.txid,
+            commit.feerate_per_kw(),
+            contest_delay,
+            htlc,
+            &params.channel_type_features,
+            &keys.broadcaster_delayed_payment_key,
+            &keys.revocation_key,
+        );
+        let script = get_htlc_redeemscript(htlc, &params.channel_type_features, keys);
+        let sighash = SighashCache::new(&htlc_tx)
+            .p2wsh_signature_hash(0, &script, Amount::from_sat(htlc.amount_msat / 1000), sighash_type)
+            .unwrap();
+        sigs.push(secp.sign_ecdsa(&Message::from_digest(sighash.to_byte_array()), &htlc_key));
+    }
+    (sig, sigs)
+}
+
+/// what `advance` needs, detached from the history so that it can run under `report::catch`
+struct AdvanceJob {
+    node: Arc<Node>,
+    id0: ChannelId,
+    params: ChannelTransactionParameters,
+    channel_value_sat: u64,
+    cp_funding: SecretKey,
+    cp_htlc_base: SecretKey,
+    cp_seed: [u8; 32],
+    feerate: u32,
+    /// balances of commitment 0 and 1
+    v0: (u64, u64),
+    v1: (u64, u64),
+    offered: Vec<HTLCInfo2>,
+    received: Vec<HTLCInfo2>,
+    told: Vec<[u8; 32]>,
+    payee: PublicKey,
+    skip_cp0: bool,
+}
+
+fn st<T, E: std::fmt::Debug>(what: &str, r: Result<T, E>) -> Result<T, String> {
+    r.map_err(|e| format!("{}: {}", what, format!("{:?}", e).chars().take(140).collect::<String>()))
+}
+
+impl AdvanceJob {
+    fn cp_point(&self, secp: &Secp256k1<All>, n: u64) -> PublicKey {
+        let sk = SecretKey::from_slice(&commitment_secret(&self.cp_seed, n)).expect("secret");
+        PublicKey::from_secret_key(secp, &sk)
+    }
+
+    /// the counterparty signs holder commitment n, the node validates it
+    fn holder_update(&self, secp: &Secp256k1<All>, n: u64) -> Result<(), String> {
+        let (to_holder, to_cp) = if n == 0 { self.v0 } else { self.v1 };
+        let (offered, received) = if n == 0 { (vec![], vec![]) } else { (self.offered.clone(), self.received.clone()) };
+        let point = st("get_per_commitment_point", self.node.with_channel_base(&self.id0, |b| b.get_per_commitment_point(n)))?;
+        let (commit, keys) =
+            build_commitment(secp, &self.params, true, n, &point, self.feerate, to_holder, to_cp, oic(&offered, &received));
+        let (sig, hsigs) = cp_sign_holder_commitment(
+            secp,
+            &self.params,
+            &self.cp_funding,
+            &self.cp_htlc_base,
+            self.channel_value_sat,
+            &point,
+            &commit,
+            &keys,
+        );
+        let feerate = self.feerate;
+        st(
+            &format!("validate_holder_commitment_tx_phase2({})", n),
+            self.node.with_channel(&self.id0, |ch| {
+                ch.validate_holder_commitment_tx_phase2(n, feerate, to_holder, to_cp, offered.clone(), received.clone(), &sig, &hsigs)
+            }),
+        )?;
+        if n == 0 {
+            st("activate_initial_commitment", self.node.with_channel(&self.id0, |ch| ch.activate_initial_commitment()))?;
+        } else {
+            st(
+                "revoke_previous_holder_commitment",
+                self.node.with_channel(&self.id0, |ch| ch.revoke_previous_holder_commitment(n)),
+            )?;
+        }
+        Ok(())
+    }
+
+    /// the node signs counterparty commitment n
+    fn cp_update(&self, secp: &Secp256k1<All>, n: u64) -> Result<(), String> {
+        let (to_holder, to_cp) = if n == 0 { self.v0 } else { self.v1 };
+        let (offered, received) = if n == 0 { (vec![], vec![]) } else { (self.offered.clone(), self.received.clone()) };
+        let point = self.cp_point(secp, n);
+        let feerate = self.feerate;
+        st(
+            &format!("sign_counterparty_commitment_tx_phase2({})", n),
+            self.node.with_channel(&self.id0, |ch| {
+                // HTLC directions are from the broadcaster's (the counterparty's) side here
+                ch.sign_counterparty_commitment_tx_phase2(&point, n, feerate, to_holder, to_cp, received.clone(), offered.clone())
+                    .map(|_| ())
+            }),
+        )
+    }
+
+    /// Returns the number of the step that was refused (with the reason), or Ok
+    fn run(&self) -> Result<(), (u32, String)> {
+        let secp = Secp256k1::new();
+        self.holder_update(&secp, 0).map_err(|e| (0, e))?;
+        if !self.skip_cp0 {
+            self.cp_update(&secp, 0).map_err(|e| (1, e))?;
+        }
+        for h in self.offered.iter() {
+            // an outgoing HTLC must be backed by an approved payment
+            st("add_keysend", self.node.add_keysend(self.payee, h.payment_hash, h.value_sat * 1000)).map_err(|e| (2, e))?;
+        }
+        self.cp_update(&secp, 1).map_err(|e| (3, e))?;
+        let secret = SecretKey::from_slice(&commitment_secret(&self.cp_seed, 0)).expect("secret");
+        st(
+            "validate_counterparty_revocation(0)",
+            self.node.with_channel(&self.id0, |ch| ch.validate_counterparty_revocation(0, &secret)),
+        )
+        .map_err(|e| (4, e))?;
+        self.holder_update(&secp, 1).map_err(|e| (5, e))?;
+        if !self.told.is_empty() {
+            let k: Vec<PaymentPreimage> = self.told.iter().map(|p| PaymentPreimage(*p)).collect();
+            st(
+                "htlcs_fulfilled",
+                self.node.with_channel(&self.id0, move |ch| {
+                    ch.htlcs_fulfilled(k);
+                    Ok(())
+                }),
+            )
+            .map_err(|e| (6, e))?;
+        }
+        Ok(())
     }
 }
 
@@ -407,6 +807,9 @@ impl<'a> Hist<'a> {
             for cl in c.closes.iter() {
                 s.insert(cl.txid);
             }
+            for t in c.aux.keys() {
+                s.insert(*t);
+            }
         }
         s
     }
@@ -447,6 +850,9 @@ impl<'a> Hist<'a> {
         match res {
             Ok(Ok(())) => {
                 self.chain.index_add(h, &all);
+                if all.len() > 1 {
+                    self.count_htlc_txs(&all[1..]);
+                }
                 self.chain.blocks.push(Blk { header, fh, txs: all });
                 self.chain.total_connected += 1;
                 self.r.count("block.connected");
@@ -554,6 +960,23 @@ impl<'a> Hist<'a> {
             }
             for cl in c.closes.iter() {
                 for i in tx.input.iter() {
+                    if let Some(ht) = cl.htlcs.iter().find(|h| i.previous_output.txid == cl.txid && h.vout == i.previous_output.vout) {
+                        let second = ht.second_level.as_ref().map(|(t, _)| *t == txid).unwrap_or(false);
+                        return format!(
+                            "{}-of-{}-htlc-output-{}-of-{:?}-close(dbid {})",
+                            if second { "second-level-tx" } else { "direct-spend" },
+                            if ht.ours_offered { "offered" } else if ht.preimage_told { "received(preimage-told)" } else { "received" },
+                            ht.vout,
+                            cl.kind,
+                            c.dbid
+                        );
+                    }
+                    if cl.htlcs.iter().any(|h| {
+                        chain_spender(&self.chain, cl.txid, h.vout) == Some(i.previous_output.txid)
+                            || h.second_level.as_ref().map(|(t, _)| *t == i.previous_output.txid).unwrap_or(false)
+                    }) {
+                        return format!("sweep-of-htlc-spender-output-of-{:?}-close(dbid {})", cl.kind, c.dbid);
+                    }
                     if i.previous_output.txid == cl.txid {
                         let ours = cl.ours.contains(&i.previous_output.vout);
                         return format!(
@@ -623,8 +1046,43 @@ impl<'a> Hist<'a> {
                         gone,
                         self.reorged
                     ));
+                    let ust = uni_status(c, &self.chain);
+                    let stale_h = c.stale_last_h;
                     if !gone {
                         // survival observations (antecedents of "open or merely closing survives")
+                        if let Some(st) = ust {
+                            if forget && st.has_htlcs && !st.qualifies() {
+                                // everything required that IS swept is 100 deep, something is not swept
+                                if st.main_h.is_some()
+                                    && st.has_main
+                                    && self.chain.depth_of(st.last_h) >= REQUIRED_DEPTH
+                                {
+                                    self.r.count("survived.partial_sweep_100_blocks");
+                                    self.r.count(if st.missing_htlc > 0 {
+                                        "survived.partial_sweep_100_blocks.htlc-output-unspent"
+                                    } else {
+                                        "survived.partial_sweep_100_blocks.second-level-output-unspent"
+                                    });
+                                    self.r.count(if st.holder {
+                                        "survived.partial_sweep_100_blocks.holder-commitment"
+                                    } else {
+                                        "survived.partial_sweep_100_blocks.counterparty-commitment"
+                                    });
+                                    let dbid = self.chans[ci].dbid;
+                                    self.sample_once("survived-partial-htlc-sweep-100-blocks", json!({"when": when, "dbid": dbid,
+                                        "unspent_offered_htlc_outputs": st.missing_htlc, "unspent_second_level_outputs": st.missing_second,
+                                        "confirmations_of_last_sweep_so_far": self.chain.depth_of(st.last_h)}));
+                                }
+                                if let Some(h) = stale_h {
+                                    if (self.chain.height() + 1).saturating_sub(h) >= REQUIRED_DEPTH && st.main_h.is_some() {
+                                        self.r.count("survived.htlc_sweep_reorged_out_100_blocks");
+                                        let dbid = self.chans[ci].dbid;
+                                        self.sample_once("survived-reorged-out-htlc-sweep-100-blocks", json!({"when": when, "dbid": dbid,
+                                            "height_of_the_removed_sweep": h, "chain_height": self.chain.height()}));
+                                    }
+                                }
+                            }
+                        }
                         if !forget {
                             self.r.count("survived.no-forget");
                             if d >= REQUIRED_DEPTH {
@@ -634,6 +1092,9 @@ impl<'a> Hist<'a> {
                             }
                         } else if d < FLAG_BELOW {
                             self.r.count("survived.forget.not-buried");
+                            if d == 98 && kind.starts_with("unilateral") && ust.map(|st| st.has_htlcs).unwrap_or(false) {
+                                self.r.count("survived.forget.depth98.unilateral-with-htlcs");
+                            }
                             if d == 98 {
                                 self.r.count("survived.forget.depth98");
                                 let dbid = self.chans[ci].dbid;
@@ -641,12 +1102,22 @@ impl<'a> Hist<'a> {
                             }
                         } else if d == 99 {
                             self.r.count("survived.forget.depth99");
+                            if kind.starts_with("unilateral") && ust.map(|st| st.has_htlcs).unwrap_or(false) {
+                                self.r.count("survived.forget.depth99.unilateral-with-htlcs");
+                            }
                         } else if when == "heartbeat" {
                             // eligible but still there: a liveness matter, never a C15 violation
                             self.r.count("liveness.eligible-not-pruned");
                             let c = &self.chans[ci];
                             if kind == "double-spend" && !c.inputs_known {
                                 self.r.count("liveness.eligible-not-pruned.double-spend-inputs-never-shown-to-signer");
+                            } else if kind.starts_with("unilateral")
+                                && ust
+                                    .map(|st| st.impl_extra_missing > 0 || self.chain.depth_of(st.impl_last_h) < REQUIRED_DEPTH)
+                                    .unwrap_or(false)
+                            {
+                                self.r.count("liveness.eligible-not-pruned.signer-waits-for-more-htlc-related-outputs");
+                                self.r.note("liveness, not a C15 violation: the monitor treats ANY transaction that spends a tracked HTLC output as a second-level HTLC transaction and waits until output #<input index> of that transaction is spent too (also for a counterparty commitment and for a claim by the counterparty), and it tracks received HTLC outputs while it holds the preimage; such a channel is kept although all outputs the node owns by timeout are swept and buried");
                             } else if c.forget_lost {
                                 self.r.count("liveness.eligible-not-pruned.E9-forget-flag-lost-by-restart");
                                 self.r.note("E9 (liveness, not a C15 violation): forget_channel sets the monitor's saw_forget flag only in memory (the tracker is not persisted); a restart before the next tracker persist loses the request and the buried channel is not pruned until the node repeats forget_channel");
@@ -675,6 +1146,13 @@ impl<'a> Hist<'a> {
                         "forget_requested": forget, "ghost_event": kind, "ghost_confirmations": d,
                         "max_confirmations_ever": max_seen, "situation": sit,
                         "required": REQUIRED_DEPTH,
+                        "unilateral_close": ust.map(|st| json!({
+                            "holder_commitment": st.holder, "has_htlc_outputs": st.has_htlcs,
+                            "main_output_sweep_height": st.main_h, "unspent_htlc_outputs_offered_by_node": st.missing_htlc,
+                            "unspent_outputs_of_node_second_level_txs": st.missing_second,
+                            "height_of_last_required_tx_so_far": st.last_h,
+                        })),
+                        "height_of_htlc_sweep_removed_by_reorg": stale_h,
                     });
                     if forget && d >= FLAG_BELOW {
                         self.chans[ci].stage = Stage::Pruned;
@@ -684,6 +1162,13 @@ impl<'a> Hist<'a> {
                         }
                         self.tracker_persisted();
                         self.r.count("gone.legit");
+                        if ust.map(|st| st.has_htlcs).unwrap_or(false) && kind.starts_with("unilateral") {
+                            self.r.count("gone.legit.unilateral-with-htlcs");
+                            self.r.count(&format!("gone.legit.unilateral-with-htlcs.depth.{}", depth_bucket(d)));
+                            if stale_h.is_some() {
+                                self.r.count("gone.legit.unilateral-with-htlcs.after-last-sweep-was-reorged-out-and-re-mined");
+                            }
+                        }
                         self.r.count(&format!("gone.legit.{}", kind));
                         self.r.count(&format!("gone.legit.depth.{}", depth_bucket(d)));
                         if self.world.restarts > 0 {
@@ -693,8 +1178,20 @@ impl<'a> Hist<'a> {
                         self.log(json!(["observed-pruned", dbid, kind, d]));
                     } else {
                         self.chans[ci].stage = Stage::Lost;
+                        // the main output is swept and buried, an HTLC-related output of the node is not
+                        let htlc_unswept = ust
+                            .map(|st| {
+                                st.has_htlcs
+                                    && st.main_h.map(|m| self.chain.depth_of(m) >= FLAG_BELOW).unwrap_or(false)
+                                    && (st.missing_htlc > 0 || st.missing_second > 0)
+                            })
+                            .unwrap_or(false);
                         let sig = if !forget {
                             "prune:ready-channel-dropped-without-forget"
+                        } else if htlc_unswept && ust.map(|st| st.missing_htlc > 0).unwrap_or(false) {
+                            "prune:dropped-with-unswept-htlc-output"
+                        } else if htlc_unswept {
+                            "prune:dropped-with-unswept-second-level-htlc-output"
                         } else if max_seen >= FLAG_BELOW {
                             "prune:dropped-after-reorg-unburied-close"
                         } else {
@@ -814,8 +1311,13 @@ impl<'a> Hist<'a> {
                         stage: Stage::Stub,
                         setup: None,
                         holder_points: None,
-                        cp_point: None,
+                        cp_seed: [0u8; 32],
+                        cp_secrets: None,
                         cp_signed: false,
+                        adv: None,
+                        adv_broken: false,
+                        aux: HashMap::new(),
+                        stale_last_h: None,
                         funding: None,
                         inputs_known: false,
                         forget_requested: false,
@@ -866,12 +1368,12 @@ impl<'a> Hist<'a> {
             }
         };
         // counterparty
-        let (_, cp_fund) = key_from(&mut self.rng, &self.secp);
+        let (cp_fund_sk, cp_fund) = key_from(&mut self.rng, &self.secp);
         let (_, cp_rev) = key_from(&mut self.rng, &self.secp);
         let (_, cp_pay) = key_from(&mut self.rng, &self.secp);
         let (_, cp_delayed) = key_from(&mut self.rng, &self.secp);
-        let (_, cp_htlc) = key_from(&mut self.rng, &self.secp);
-        let (_, cp_point) = key_from(&mut self.rng, &self.secp);
+        let (cp_htlc_sk, cp_htlc) = key_from(&mut self.rng, &self.secp);
+        let cp_seed = self.rng.bytes::<32>();
         let cp_points = ChannelPublicKeys {
             funding_pubkey: cp_fund,
             revocation_basepoint: RevocationBasepoint(cp_rev),
@@ -948,7 +1450,8 @@ impl<'a> Hist<'a> {
                 c.setup = Some(setup);
                 c.perm_id = perm_id;
                 c.holder_points = Some(holder_points);
-                c.cp_point = Some(cp_point);
+                c.cp_seed = cp_seed;
+                c.cp_secrets = Some((cp_fund_sk, cp_htlc_sk));
                 c.funding = Some(ftx.clone());
             }
             Ok(Err(e)) => {
@@ -984,12 +1487,21 @@ impl<'a> Hist<'a> {
                 }
             }
         }
+        // about half of the channels get a current commitment with HTLCs on both sides
+        if !self.dead() && self.rng.chance(1, 2) {
+            self.advance(ci);
+        }
     }
 
     fn commitment_values(&self, c: &GChan, feerate: u32) -> (u64, u64) {
+        self.commitment_values_n(c, feerate, 0)
+    }
+
+    /// balances of a commitment with n untrimmed HTLCs, before the HTLC amounts are taken off
+    fn commitment_values_n(&self, c: &GChan, feerate: u32, n_htlcs: u64) -> (u64, u64) {
         let s = c.setup.as_ref().unwrap();
         let anchors = s.commitment_type != CommitmentType::StaticRemoteKey;
-        let weight: u64 = if anchors { 1124 } else { 724 };
+        let weight: u64 = if anchors { 1124 } else { 724 } + 172 * n_htlcs;
         let mut fee = feerate as u64 * weight / 1000;
         if anchors {
             fee += 660;
@@ -1010,7 +1522,7 @@ impl<'a> Hist<'a> {
         }
         let feerate = 1000u32;
         let (to_holder, to_cp) = self.commitment_values(&self.chans[ci], feerate);
-        let point = self.chans[ci].cp_point.unwrap();
+        let point = self.cp_point(ci, 0);
         let id0 = self.chans[ci].id0.clone();
         let node = self.world.node.clone();
         let res = report::catch(move || {
@@ -1032,6 +1544,129 @@ impl<'a> Hist<'a> {
             Err(p) => {
                 self.r.count("op.sign_counterparty_commitment.panic");
                 self.abort(format!("sign_counterparty_commitment panic {}", p));
+            }
+        }
+    }
+
+    /// the counterparty's per-commitment point of (forward counting) commitment n
+    fn cp_point(&self, ci: usize, n: u64) -> PublicKey {
+        let sk = SecretKey::from_slice(&commitment_secret(&self.chans[ci].cp_seed, n)).expect("secret");
+        PublicKey::from_secret_key(&self.secp, &sk)
+    }
+
+    /// Advance a freshly set up channel, through the real commitment flow, to commitment 1 with
+    /// 1-3 HTLCs on both sides (holder commitment 0 revoked, counterparty commitment 0 revoked).
+    fn advance(&mut self, ci: usize) {
+        if self.dead() || self.chans[ci].stage != Stage::Ready || self.chans[ci].adv.is_some() || self.chans[ci].adv_broken {
+            return;
+        }
+        let feerate = 1000u32;
+        let want = 1 + self.rng.below(3);
+        // choose the HTLCs against the balances of a commitment with 3 HTLCs (the funder pays the fee)
+        let (mut h, mut p) = self.commitment_values_n(&self.chans[ci], feerate, 3);
+        let cltv_base = self.chain.height() + 1;
+        let mut offered: Vec<HTLCInfo2> = vec![];
+        let mut received: Vec<HTLCInfo2> = vec![];
+        let mut told: Vec<[u8; 32]> = vec![];
+        for _ in 0..want {
+            let value = self.rng.range(20_000, 200_000);
+            let mut off = self.rng.bool();
+            if off && h < value + 30_000 {
+                off = false;
+            }
+            if !off && p < value + 30_000 {
+                off = true;
+            }
+            if off && h < value + 30_000 {
+                continue;
+            }
+            let preimage = self.rng.bytes::<32>();
+            let info = HTLCInfo2 {
+                value_sat: value,
+                payment_hash: htlc_hash(&preimage),
+                cltv_expiry: cltv_base + 50 + self.rng.below(350) as u32,
+            };
+            if off {
+                h -= value;
+                offered.push(info);
+            } else {
+                p -= value;
+                if self.rng.chance(1, 3) {
+                    told.push(preimage);
+                }
+                received.push(info);
+            }
+        }
+        let n = (offered.len() + received.len()) as u64;
+        if n == 0 {
+            self.r.count("advance.no-htlc-affordable");
+            return;
+        }
+        let c = &self.chans[ci];
+        let v0 = self.commitment_values(c, feerate);
+        let (h1, p1) = self.commitment_values_n(c, feerate, n);
+        let so: u64 = offered.iter().map(|x| x.value_sat).sum();
+        let sr: u64 = received.iter().map(|x| x.value_sat).sum();
+        let v1 = (h1 - so, p1 - sr);
+        let (cp_funding, cp_htlc_base) = c.cp_secrets.clone().unwrap();
+        let s = c.setup.as_ref().unwrap();
+        let job = AdvanceJob {
+            node: self.world.node.clone(),
+            id0: c.id0.clone(),
+            params: self.channel_parameters(c),
+            channel_value_sat: s.channel_value_sat,
+            cp_funding,
+            cp_htlc_base,
+            cp_seed: c.cp_seed,
+            feerate,
+            v0,
+            v1,
+            offered: offered.clone(),
+            received: received.clone(),
+            told: told.clone(),
+            payee: s.counterparty_points.payment_point,
+            skip_cp0: c.cp_signed,
+        };
+        let dbid = c.dbid;
+        let res = report::catch(move || job.run());
+        match res {
+            Ok(Ok(())) => {
+                self.r.count("op.advance.ok");
+                self.r.count_n("op.advance.htlcs.offered", offered.len() as u64);
+                self.r.count_n("op.advance.htlcs.received", received.len() as u64);
+                self.r.count_n("op.advance.htlcs.received.preimage-told", told.len() as u64);
+                self.tracker_persisted();
+                self.log(json!(["advance-to-commitment-1", dbid, {"offered": offered.iter().map(|x| x.value_sat).collect::<Vec<_>>(),
+                    "received": received.iter().map(|x| x.value_sat).collect::<Vec<_>>(), "preimages_told": told.len(),
+                    "to_holder": v1.0, "to_counterparty": v1.1}]));
+                let c = &mut self.chans[ci];
+                c.cp_signed = true;
+                c.adv = Some(Adv {
+                    feerate,
+                    to_holder: v1.0,
+                    to_cp: v1.1,
+                    offered,
+                    received,
+                    told: told.iter().map(htlc_hash).collect(),
+                });
+            }
+            Ok(Err((step, e))) => {
+                self.r.count("op.advance.refused");
+                self.r.count(&format!("op.advance.refused.step{}", step));
+                self.r.set_add("advance_refusals", &e);
+                self.log(json!(["advance-refused", dbid, step]));
+                let c = &mut self.chans[ci];
+                if step >= 1 {
+                    // commitment 0 of the holder is validated; the counterparty's may be signed
+                    c.cp_signed = c.cp_signed || step >= 2;
+                }
+                // after step 3 the two sides are out of step: leave unilateral closes alone
+                c.adv_broken = step >= 3;
+            }
+            Err(pm) => {
+                self.r.count("op.advance.panic");
+                self.r.note(&format!("panic while advancing a channel (history abandoned): {}", pm));
+                self.abort(format!("advance panic {}", pm));
             }
         }
     }
@@ -1062,18 +1697,21 @@ impl<'a> Hist<'a> {
                         self.max_forgotten = dbid;
                         self.restarts_since_max_forget = 0;
                     }
-                    let c = &mut self.chans[ci];
-                    match c.stage {
-                        Stage::Ready => {
-                            c.forget_requested = true;
-                            c.restarts_since_forget = 0;
-                            c.flag_persisted = false;
-                            c.forget_lost = false;
+                    // every live ghost entry with this id (more than one only after an id was reused,
+                    // which Oracle 2 has reported by then)
+                    for c in self.chans.iter_mut().filter(|c| c.id0 == id0) {
+                        match c.stage {
+                            Stage::Ready => {
+                                c.forget_requested = true;
+                                c.restarts_since_forget = 0;
+                                c.flag_persisted = false;
+                                c.forget_lost = false;
+                            }
+                            Stage::Stub => {
+                                c.stage = Stage::StubGone;
+                            }
+                            _ => {}
                         }
-                        Stage::Stub => {
-                            c.stage = Stage::StubGone;
-                        }
-                        _ => {}
                     }
                 }
                 self.check("forget");
@@ -1136,7 +1774,7 @@ impl<'a> Hist<'a> {
             output: outs,
         };
         let txid = tx.compute_txid();
-        self.chans[ci].closes.push(CloseTx { tx: tx.clone(), txid, kind: CloseKind::Mutual, ours: vec![], theirs: None });
+        self.chans[ci].closes.push(CloseTx { tx: tx.clone(), txid, kind: CloseKind::Mutual, ours: vec![], theirs: None, htlcs: vec![] });
         tx
     }
 
@@ -1155,45 +1793,40 @@ impl<'a> Hist<'a> {
         }
     }
 
-    /// BOLT-3 commitment transaction number 0 of the holder (broadcast by the node itself)
+    /// The holder's current commitment transaction (broadcast by the node itself): number 1 with
+    /// HTLCs for an advanced channel, else number 0
     fn holder_close_tx(&mut self, ci: usize) -> Option<Transaction> {
-        let id0 = self.chans[ci].id0.clone();
-        let point = self.world.node.with_channel_base(&id0, |b| b.get_per_commitment_point(0)).ok()?;
-        let c = &self.chans[ci];
-        let s = c.setup.as_ref().unwrap();
-        let hp = c.holder_points.as_ref().unwrap();
-        let cp = &s.counterparty_points;
-        let params = self.channel_parameters(c);
-        let keys = TxCreationKeys::derive_new(
-            &self.secp,
-            &point,
-            &hp.delayed_payment_basepoint,
-            &hp.htlc_basepoint,
-            &cp.revocation_basepoint,
-            &cp.htlc_basepoint,
-        );
-        let feerate = 1000u32;
-        let (to_holder, to_cp) = self.commitment_values(c, feerate);
-        // With anchors the counterparty's to_remote is a P2WSH the monitor can only classify with
-        // the holder commitment info of a validated commitment (it would treat it as an HTLC and
-        // abort, monitor.rs:430 — C14's subject); this workload never validates holder
-        // commitments, so that shape is not generated.
-        if s.commitment_type != CommitmentType::StaticRemoteKey && to_cp > 0 {
+        if self.chans[ci].adv_broken {
             return None;
         }
-        let mut htlcs: Vec<(lightning_signer::lightning::ln::chan_utils::HTLCOutputInCommitment, ())> = vec![];
-        let ctx = CommitmentTransaction::new_with_auxiliary_htlc_data(
-            INITIAL_COMMITMENT_NUMBER,
-            to_holder,
-            to_cp,
-            hp.funding_pubkey,
-            cp.funding_pubkey,
-            keys.clone(),
-            feerate,
-            &mut htlcs,
-            &params.as_holder_broadcastable(),
-        );
-        let tx = ctx.trust().built_transaction().transaction.clone();
+        let id0 = self.chans[ci].id0.clone();
+        let n: u64 = if self.chans[ci].adv.is_some() { 1 } else { 0 };
+        let point = self.world.node.with_channel_base(&id0, |b| b.get_per_commitment_point(n)).ok()?;
+        let c = &self.chans[ci];
+        let s = c.setup.as_ref().unwrap();
+        let params = self.channel_parameters(c);
+        let (feerate, to_holder, to_cp, offered, received) = match &c.adv {
+            Some(a) => (a.feerate, a.to_holder, a.to_cp, a.offered.clone(), a.received.clone()),
+            None => {
+                let feerate = 1000u32;
+                let (h, p) = self.commitment_values(c, feerate);
+                (feerate, h, p, vec![], vec![])
+            }
+        };
+        // With anchors the counterparty's to_remote is a P2WSH the monitor can only classify with
+        // the holder commitment info of a validated commitment (it would treat it as an HTLC and
+        // abort, monitor.rs:430 — C14's subject); a channel that was not advanced never validated
+        // a holder commitment, so that shape is not generated for it.
+        if c.adv.is_none() && s.commitment_type != CommitmentType::StaticRemoteKey && to_cp > 0 {
+            return None;
+        }
+        let (commit, keys) =
+            build_commitment(&self.secp, &params, true, n, &point, feerate, to_holder, to_cp, oic(&offered, &received));
+        let tx = commit.trust().built_transaction().transaction.clone();
+        let txid = tx.compute_txid();
+        if c.closes.iter().any(|x| x.txid == txid) {
+            return Some(tx);
+        }
         // the node's output: to_local (revocable, delayed by the counterparty-selected delay)
         let to_local = get_revokeable_redeemscript(
             &keys.revocation_key,
@@ -1201,58 +1834,82 @@ impl<'a> Hist<'a> {
             &keys.broadcaster_delayed_payment_key,
         )
         .to_p2wsh();
-        let ours: Vec<u32> =
-            tx.output.iter().enumerate().filter(|(_, o)| o.script_pubkey == to_local).map(|(i, _)| i as u32).collect();
+        let told: Vec<PaymentHash> = c.adv.as_ref().map(|a| a.told.clone()).unwrap_or_default();
+        let htlcs: Vec<HtlcOut> = commit
+            .htlcs()
+            .iter()
+            .filter_map(|h| {
+                let vout = h.transaction_output_index?;
+                let second = build_htlc_transaction(
+                    &txid,
+                    commit.feerate_per_kw(),
+                    s.counterparty_selected_contest_delay,
+                    h,
+                    &params.channel_type_features,
+                    &keys.broadcaster_delayed_payment_key,
+                    &keys.revocation_key,
+                );
+                Some(HtlcOut {
+                    vout,
+                    value: h.amount_msat / 1000,
+                    // offered by the broadcaster = offered by the node
+                    ours_offered: h.offered,
+                    preimage_told: !h.offered && told.contains(&h.payment_hash),
+                    second_level: Some((second.compute_txid(), second)),
+                })
+            })
+            .collect();
+        let hv: Vec<u32> = htlcs.iter().map(|h| h.vout).collect();
+        let ours: Vec<u32> = tx
+            .output
+            .iter()
+            .enumerate()
+            .filter(|(i, o)| o.script_pubkey == to_local && !hv.contains(&(*i as u32)))
+            .map(|(i, _)| i as u32)
+            .collect();
         let theirs = tx
             .output
             .iter()
             .enumerate()
-            .find(|(i, o)| !ours.contains(&(*i as u32)) && o.value.to_sat() != 330)
+            .find(|(i, o)| !ours.contains(&(*i as u32)) && !hv.contains(&(*i as u32)) && o.value.to_sat() != 330)
             .map(|(i, _)| i as u32);
-        let txid = tx.compute_txid();
-        if c.closes.iter().any(|x| x.txid == txid) {
-            return Some(tx);
-        }
-        self.chans[ci].closes.push(CloseTx { tx: tx.clone(), txid, kind: CloseKind::Holder, ours, theirs });
+        self.chans[ci].closes.push(CloseTx { tx: tx.clone(), txid, kind: CloseKind::Holder, ours, theirs, htlcs });
         Some(tx)
     }
 
-    /// BOLT-3 commitment transaction number 0 of the counterparty
+    /// The counterparty's current commitment transaction: number 1 with HTLCs for an advanced
+    /// channel, else number 0
     fn cp_close_tx(&mut self, ci: usize) -> Option<Transaction> {
+        if self.chans[ci].adv_broken {
+            return None;
+        }
         let c = &self.chans[ci];
         let s = c.setup.as_ref().unwrap();
         let hp = c.holder_points.as_ref().unwrap();
-        let cp = &s.counterparty_points;
-        let feerate = 1000u32;
-        let (to_holder, to_cp) = self.commitment_values(c, feerate);
+        let n: u64 = if c.adv.is_some() { 1 } else { 0 };
+        let (feerate, to_holder, to_cp, offered, received) = match &c.adv {
+            Some(a) => (a.feerate, a.to_holder, a.to_cp, a.offered.clone(), a.received.clone()),
+            None => {
+                let feerate = 1000u32;
+                let (h, p) = self.commitment_values(c, feerate);
+                (feerate, h, p, vec![], vec![])
+            }
+        };
         // the signer can only tell the counterparty's to_local apart once it has signed that
         // commitment; without it only a commitment without counterparty balance is generated
         if !c.cp_signed && to_cp > 0 {
             return None;
         }
-        let point = c.cp_point.unwrap();
+        let point = self.cp_point(ci, n);
         let params = self.channel_parameters(c);
-        let keys = TxCreationKeys::derive_new(
-            &self.secp,
-            &point,
-            &cp.delayed_payment_basepoint,
-            &cp.htlc_basepoint,
-            &hp.revocation_basepoint,
-            &hp.htlc_basepoint,
-        );
-        let mut htlcs: Vec<(lightning_signer::lightning::ln::chan_utils::HTLCOutputInCommitment, ())> = vec![];
-        let ctx = CommitmentTransaction::new_with_auxiliary_htlc_data(
-            INITIAL_COMMITMENT_NUMBER,
-            to_cp,
-            to_holder,
-            cp.funding_pubkey,
-            hp.funding_pubkey,
-            keys,
-            feerate,
-            &mut htlcs,
-            &params.as_counterparty_broadcastable(),
-        );
-        let tx = ctx.trust().built_transaction().transaction.clone();
+        // what the node received is what the counterparty (the broadcaster) offered
+        let (commit, _keys) =
+            build_commitment(&self.secp, &params, false, n, &point, feerate, to_cp, to_holder, oic(&received, &offered));
+        let tx = commit.trust().built_transaction().transaction.clone();
+        let txid = tx.compute_txid();
+        if c.closes.iter().any(|x| x.txid == txid) {
+            return Some(tx);
+        }
         // the node's output: to_remote
         let anchors = s.commitment_type != CommitmentType::StaticRemoteKey;
         let to_remote = if anchors {
@@ -1260,19 +1917,37 @@ impl<'a> Hist<'a> {
         } else {
             ScriptBuf::new_p2wpkh(&CompressedPublicKey(hp.payment_point).wpubkey_hash())
         };
-        let ours: Vec<u32> =
-            tx.output.iter().enumerate().filter(|(_, o)| o.script_pubkey == to_remote).map(|(i, _)| i as u32).collect();
+        let told: Vec<PaymentHash> = c.adv.as_ref().map(|a| a.told.clone()).unwrap_or_default();
+        let htlcs: Vec<HtlcOut> = commit
+            .htlcs()
+            .iter()
+            .filter_map(|h| {
+                let vout = h.transaction_output_index?;
+                Some(HtlcOut {
+                    vout,
+                    value: h.amount_msat / 1000,
+                    // received by the broadcaster (the counterparty) = offered by the node
+                    ours_offered: !h.offered,
+                    preimage_told: h.offered && told.contains(&h.payment_hash),
+                    second_level: None,
+                })
+            })
+            .collect();
+        let hv: Vec<u32> = htlcs.iter().map(|h| h.vout).collect();
+        let ours: Vec<u32> = tx
+            .output
+            .iter()
+            .enumerate()
+            .filter(|(i, o)| o.script_pubkey == to_remote && !hv.contains(&(*i as u32)))
+            .map(|(i, _)| i as u32)
+            .collect();
         let theirs = tx
             .output
             .iter()
             .enumerate()
-            .find(|(i, o)| !ours.contains(&(*i as u32)) && o.value.to_sat() != 330)
+            .find(|(i, o)| !ours.contains(&(*i as u32)) && !hv.contains(&(*i as u32)) && o.value.to_sat() != 330)
             .map(|(i, _)| i as u32);
-        let txid = tx.compute_txid();
-        if c.closes.iter().any(|x| x.txid == txid) {
-            return Some(tx);
-        }
-        self.chans[ci].closes.push(CloseTx { tx: tx.clone(), txid, kind: CloseKind::Counterparty, ours, theirs });
+        self.chans[ci].closes.push(CloseTx { tx: tx.clone(), txid, kind: CloseKind::Counterparty, ours, theirs, htlcs });
         Some(tx)
     }
 
@@ -1305,6 +1980,412 @@ impl<'a> Hist<'a> {
             input: vec![TxIn { previous_output: op, script_sig: ScriptBuf::new(), sequence: Sequence(6), witness: Witness::default() }],
             output: vec![out],
         })
+    }
+
+    // ---- HTLC outputs of a unilateral close -----------------------------------------------------
+
+    /// unspent HTLC outputs (index into `htlcs`) of the confirmed unilateral close
+    fn unspent_htlcs(&self, ci: usize) -> Vec<usize> {
+        let k = match self.confirmed_unilateral(ci) {
+            Some(k) => k,
+            None => return vec![],
+        };
+        let cl = &self.chans[ci].closes[k];
+        (0..cl.htlcs.len())
+            .filter(|i| !self.chain.spent.contains_key(&OutPoint { txid: cl.txid, vout: cl.htlcs[*i].vout }))
+            .collect()
+    }
+
+    /// confirmed spenders of HTLC outputs of the confirmed unilateral close whose output #0 is
+    /// unspent: (spender txid, index into `htlcs`, is the node's second-level transaction)
+    fn unswept_spenders(&self, ci: usize) -> Vec<(Txid, usize, bool)> {
+        let k = match self.confirmed_unilateral(ci) {
+            Some(k) => k,
+            None => return vec![],
+        };
+        let c = &self.chans[ci];
+        let cl = &c.closes[k];
+        let mut v = vec![];
+        for (i, ht) in cl.htlcs.iter().enumerate() {
+            if let Some((_, by)) = self.chain.spent.get(&OutPoint { txid: cl.txid, vout: ht.vout }) {
+                if c.aux.contains_key(by) && !self.chain.spent.contains_key(&OutPoint { txid: *by, vout: 0 }) {
+                    let second = ht.second_level.as_ref().map(|(t, _)| t == by).unwrap_or(false);
+                    v.push((*by, i, second));
+                }
+            }
+        }
+        v
+    }
+
+    /// A transaction spending HTLC output `hi` of the confirmed unilateral close: the node's
+    /// second-level transaction (holder commitment only) or a direct spend (1 input, 1 output)
+    fn htlc_spend_tx(&mut self, ci: usize, hi: usize, second_level: bool) -> Option<Transaction> {
+        let k = self.confirmed_unilateral(ci)?;
+        let (txid, ht) = {
+            let cl = &self.chans[ci].closes[k];
+            (cl.txid, cl.htlcs.get(hi)?.clone())
+        };
+        let tx = match (&ht.second_level, second_level) {
+            (Some((_, t)), true) => t.clone(),
+            _ => {
+                let out = self.fresh_out(ht.value.saturating_sub(700).max(600));
+                let seq = *self.rng.pick(&[Sequence::ZERO, Sequence(1), Sequence::MAX]);
+                Transaction {
+                    version: Version::TWO,
+                    lock_time: LockTime::ZERO,
+                    input: vec![TxIn {
+                        previous_output: OutPoint { txid, vout: ht.vout },
+                        script_sig: ScriptBuf::new(),
+                        sequence: seq,
+                        witness: Witness::default(),
+                    }],
+                    output: vec![out],
+                }
+            }
+        };
+        self.chans[ci].aux.insert(tx.compute_txid(), tx.clone());
+        Some(tx)
+    }
+
+    /// A sweep of output #0 of a (confirmed) spender of an HTLC output
+    fn spender_output_sweep_tx(&mut self, ci: usize, parent: Txid) -> Option<Transaction> {
+        let ptx = self.chans[ci].aux.get(&parent)?.clone();
+        let value = ptx.output.first()?.value.to_sat();
+        let out = self.fresh_out(value.saturating_sub(400).max(600));
+        let delay = self.chans[ci].setup.as_ref().map(|s| s.counterparty_selected_contest_delay).unwrap_or(6);
+        let tx = Transaction {
+            version: Version::TWO,
+            lock_time: LockTime::ZERO,
+            input: vec![TxIn {
+                previous_output: OutPoint { txid: parent, vout: 0 },
+                script_sig: ScriptBuf::new(),
+                sequence: Sequence(delay as u32),
+                witness: Witness::default(),
+            }],
+            output: vec![out],
+        };
+        self.chans[ci].aux.insert(tx.compute_txid(), tx.clone());
+        Some(tx)
+    }
+
+    /// evidence: what kind of HTLC-related transactions a connected block carried
+    fn count_htlc_txs(&mut self, txs: &[Transaction]) {
+        for tx in txs.iter() {
+            let txid = tx.compute_txid();
+            let mut keys: Vec<&'static str> = vec![];
+            for c in self.chans.iter() {
+                if !c.aux.contains_key(&txid) {
+                    continue;
+                }
+                for cl in c.closes.iter() {
+                    for ht in cl.htlcs.iter() {
+                        let spends_htlc =
+                            tx.input.iter().any(|i| i.previous_output == OutPoint { txid: cl.txid, vout: ht.vout });
+                        if spends_htlc {
+                            let second = ht.second_level.as_ref().map(|(t, _)| *t == txid).unwrap_or(false);
+                            keys.push(match (second, ht.ours_offered) {
+                                (true, true) => "htlc.second_level_tx_confirmed.htlc-timeout(offered-by-node)",
+                                (true, false) => "htlc.second_level_tx_confirmed.htlc-success(received-by-node)",
+                                (false, true) => "htlc.direct_spend_confirmed.offered-by-node",
+                                (false, false) => "htlc.direct_spend_confirmed.received-by-node",
+                            });
+                            keys.push(if second { "htlc.second_level_tx_confirmed" } else { "htlc.direct_spend_confirmed" });
+                            keys.push(if cl.kind == CloseKind::Holder {
+                                "htlc.output_spent.holder-commitment"
+                            } else {
+                                "htlc.output_spent.counterparty-commitment"
+                            });
+                        }
+                        let parent_second = ht.second_level.as_ref().map(|(t, _)| *t);
+                        for i in tx.input.iter() {
+                            let pt = i.previous_output.txid;
+                            if pt != cl.txid && c.aux.contains_key(&pt) && i.previous_output.vout == 0 {
+                                let parent_spends_this = c
+                                    .aux
+                                    .get(&pt)
+                                    .map(|p| p.input.iter().any(|pi| pi.previous_output == OutPoint { txid: cl.txid, vout: ht.vout }))
+                                    .unwrap_or(false);
+                                if parent_spends_this {
+                                    keys.push(if parent_second == Some(pt) {
+                                        "htlc.second_level_output_swept"
+                                    } else {
+                                        "htlc.direct_spender_output_swept"
+                                    });
+                                }
+                            }
+                        }
+                    }
+                }
+            }
+            for k in keys {
+                self.r.count(k);
+            }
+        }
+    }
+
+    /// connect the transactions, each in its own block or all in one (they must not depend on
+    /// each other when in one block); stops at the first that is not includable
+    fn include_seq(&mut self, txs: Vec<Transaction>, one_block: bool) -> bool {
+        if txs.is_empty() {
+            return true;
+        }
+        let known = self.known_txids();
+        if one_block {
+            let mut take: Vec<Transaction> = vec![];
+            for tx in txs.into_iter() {
+                let child = take.iter().any(|p| tx.input.iter().any(|i| i.previous_output.txid == p.compute_txid()));
+                if !child && self.includable(&tx, &take, &known) {
+                    take.push(tx);
+                }
+            }
+            !take.is_empty() && self.connect(take)
+        } else {
+            for tx in txs.into_iter() {
+                if !self.includable(&tx, &[], &known) {
+                    return false;
+                }
+                if !self.connect(vec![tx]) {
+                    return false;
+                }
+                if self.rng.chance(1, 4) {
+                    self.heartbeat();
+                }
+                if self.rng.chance(1, 5) {
+                    let n = 1 + self.rng.below(2) as u32;
+                    self.mine_empty(n);
+                }
+                if self.dead() {
+                    return false;
+                }
+            }
+            true
+        }
+    }
+
+    /// Mine n empty blocks with heartbeats every few blocks, at every block while something is
+    /// about 100 deep (the ghost event, the last required sweep seen so far, a sweep that a reorg
+    /// removed), and at the end
+    fn long_wait(&mut self, n: u32) {
+        self.log(json!(["long-wait", n]));
+        for _ in 0..n {
+            if !self.connect(vec![]) {
+                return;
+            }
+            let height = self.chain.height();
+            let near = self.near_threshold()
+                || self.chans.iter().any(|c| {
+                    c.stage == Stage::Ready && {
+                        let stale = c.stale_last_h.map(|h| (99..=101).contains(&(height + 1).saturating_sub(h))).unwrap_or(false);
+                        let partial = uni_status(c, &self.chain)
+                            .map(|st| st.has_htlcs && !st.qualifies() && (99..=101).contains(&self.chain.depth_of(st.last_h)))
+                            .unwrap_or(false);
+                        stale || partial
+                    }
+                });
+            if near {
+                if self.rng.chance(4, 5) {
+                    self.heartbeat();
+                }
+                if self.rng.chance(1, 12) {
+                    self.restart();
+                }
+            } else if self.rng.chance(1, 9) {
+                self.heartbeat();
+            } else if self.rng.chance(1, 80) {
+                self.restart();
+            }
+            if self.dead() {
+                return;
+            }
+        }
+        self.heartbeat();
+    }
+
+    /// Macro: sweep the outputs of a confirmed unilateral close with HTLCs.
+    /// mode 0: everything; 1: leave one HTLC output the node offered unspent; 2: leave the output
+    /// of one of the node's second-level transactions unspent.  After a partial sweep the node
+    /// mostly asks to forget the channel and 100..130 blocks go by with heartbeats.
+    fn htlc_macro(&mut self, ci: usize) {
+        let k = match self.confirmed_unilateral(ci) {
+            Some(k) => k,
+            None => return,
+        };
+        let (holder, dbid) = (self.chans[ci].closes[k].kind == CloseKind::Holder, self.chans[ci].dbid);
+        let mut mode = self.rng.weighted(&[4, 3, 3]);
+        let unspent = self.unspent_htlcs(ci);
+        let offered_unspent: Vec<usize> =
+            unspent.iter().copied().filter(|i| self.chans[ci].closes[k].htlcs[*i].ours_offered).collect();
+        if mode == 1 && offered_unspent.is_empty() {
+            mode = if holder { 2 } else { 0 };
+        }
+        let skip_htlc = if mode == 1 { Some(*self.rng.pick(&offered_unspent)) } else { None };
+        let mode_name = ["complete", "leave-an-offered-htlc-output", "leave-a-second-level-output"][mode];
+        self.log(json!(["htlc-sweep-macro", dbid, mode_name]));
+        self.r.count(&format!("macro.htlc-sweep.mode{}", mode));
+        // stage 1: main output and HTLC outputs
+        let mut stage1: Vec<Transaction> = vec![];
+        let main = self.sweep_tx(ci, true);
+        for hi in unspent.iter().copied() {
+            if Some(hi) == skip_htlc {
+                continue;
+            }
+            let ours = self.chans[ci].closes[k].htlcs[hi].ours_offered;
+            // the node's second-level transaction most of the time on its own commitment
+            // (always for the HTLCs it offered when a second-level output is to be left)
+            let second = holder && (self.rng.chance(3, 4) || (mode == 2 && ours));
+            if let Some(tx) = self.htlc_spend_tx(ci, hi, second) {
+                stage1.push(tx);
+            }
+        }
+        self.rng.shuffle(&mut stage1);
+        if let Some(m) = main {
+            if self.rng.chance(3, 4) {
+                stage1.insert(0, m);
+            } else {
+                let at = self.rng.usize(stage1.len() + 1);
+                stage1.insert(at, m);
+            }
+        }
+        let one_block = self.rng.chance(1, 3);
+        if !self.include_seq(stage1, one_block) && self.dead() {
+            return;
+        }
+        // stage 2: the outputs of the transactions that spent HTLC outputs
+        let spenders = self.unswept_spenders(ci);
+        let second_offered: Vec<Txid> = spenders
+            .iter()
+            .filter(|(_, hi, second)| *second && self.chans[ci].closes[k].htlcs[*hi].ours_offered)
+            .map(|(t, _, _)| *t)
+            .collect();
+        let skip_second = if mode == 2 && !second_offered.is_empty() { Some(*self.rng.pick(&second_offered)) } else { None };
+        if mode == 2 && skip_second.is_none() {
+            mode = 0;
+        }
+        let mut stage2: Vec<Transaction> = vec![];
+        for (t, _, _) in spenders.iter() {
+            if Some(*t) == skip_second {
+                continue;
+            }
+            if let Some(tx) = self.spender_output_sweep_tx(ci, *t) {
+                stage2.push(tx);
+            }
+        }
+        self.rng.shuffle(&mut stage2);
+        let one_block = self.rng.chance(1, 4);
+        if !self.include_seq(stage2, one_block) && self.dead() {
+            return;
+        }
+        if mode != 0 && self.rng.chance(3, 4) {
+            if !self.chans[ci].forget_requested || self.rng.chance(1, 4) {
+                self.forget(ci);
+            }
+            let n = 100 + self.rng.below(31) as u32;
+            self.long_wait(n);
+        }
+    }
+
+    /// Macro: a reorg disconnects the blocks down to the one that carries the LAST required
+    /// HTLC-related sweep of a fully swept unilateral close; the sweep of the main output stays
+    /// confirmed.  The removed HTLC-related sweeps are not re-mined (mode 0), re-mined after a long
+    /// wait (1) or right away (2).  With 0 and 1 the node asks to forget the channel and 100..125
+    /// blocks go by with heartbeats: the channel must survive.
+    fn reorg_last_macro(&mut self, ci: usize) {
+        let st = match uni_status(&self.chans[ci], &self.chain) {
+            Some(st) => st,
+            None => return,
+        };
+        if !st.qualifies() || !st.last_is_htlc {
+            return;
+        }
+        let d = self.chain.depth_of(st.last_h);
+        let dbid = self.chans[ci].dbid;
+        let mode = self.rng.weighted(&[4, 3, 2]);
+        let then = ["not-re-mined", "re-mined-after-long-wait", "re-mined-right-away"][mode];
+        self.log(json!(["reorg-last-htlc-sweep-macro", dbid, {"disconnect": d, "last_sweep_height": st.last_h,
+            "main_sweep_height": st.main_h, "then": then}]));
+        let mut dropped: Vec<Transaction> = vec![];
+        let mut done = 0u32;
+        for _ in 0..d {
+            match self.disconnect() {
+                Some(txs) => {
+                    let mut t = txs;
+                    t.extend(dropped);
+                    dropped = t;
+                    done += 1;
+                }
+                None => break,
+            }
+        }
+        if self.dead() || done < d {
+            return;
+        }
+        self.r.count("op.reorg");
+        let after = uni_status(&self.chans[ci], &self.chain);
+        let main_kept = after.map(|a| a.main_h.is_some() && !a.qualifies()).unwrap_or(false);
+        if !main_kept {
+            // cannot happen by construction; keep the evidence honest
+            self.r.count("htlc.sweep_reorged_out.unexpected-shape");
+            return;
+        }
+        self.r.count(if st.has_main {
+            "htlc.sweep_reorged_out_main_sweep_kept"
+        } else {
+            "htlc.sweep_reorged_out_no_main_output"
+        });
+        let a = after.unwrap();
+        self.r.count(if a.missing_htlc > 0 {
+            "htlc.sweep_reorged_out.htlc-output-spend"
+        } else {
+            "htlc.sweep_reorged_out.second-level-output-sweep"
+        });
+        self.chans[ci].stale_last_h = Some(st.last_h);
+        self.r.count(&format!("macro.reorg-last-htlc-sweep.{}", then));
+        match self.rng.below(4) {
+            0 => self.heartbeat(),
+            1 => {
+                self.restart();
+                self.heartbeat();
+            }
+            _ => {}
+        }
+        // transactions of this channel's HTLC sweeps are held back, everything else returns
+        let (held, rest): (Vec<Transaction>, Vec<Transaction>) =
+            dropped.into_iter().partition(|t| self.chans[ci].aux.contains_key(&t.compute_txid()));
+        let newlen = done + self.rng.below(3) as u32;
+        let mut rest = rest;
+        for b in 0..newlen {
+            let take = if b == 0 {
+                let known = self.known_txids();
+                let mut take: Vec<Transaction> = vec![];
+                for tx in std::mem::take(&mut rest).into_iter() {
+                    let child = take.iter().any(|p| tx.input.iter().any(|i| i.previous_output.txid == p.compute_txid()));
+                    if !child && self.includable(&tx, &take, &known) {
+                        take.push(tx);
+                    }
+                }
+                take
+            } else {
+                vec![]
+            };
+            if !self.connect(take) {
+                return;
+            }
+        }
+        if mode == 2 {
+            self.include_seq(held, false);
+            self.heartbeat();
+            return;
+        }
+        if !self.chans[ci].forget_requested && self.rng.chance(7, 8) {
+            self.forget(ci);
+        }
+        self.heartbeat();
+        let n = 100 + self.rng.below(26) as u32;
+        self.long_wait(n);
+        if mode == 1 && !self.dead() {
+            self.include_seq(held, false);
+            self.heartbeat();
+        }
     }
 
     // ---- macro steps ------------------------------------------------------------------------
@@ -1469,10 +2550,48 @@ fn run_history(rng: &mut Rng, r: &mut Report, ctx: Value, steps: u32) {
         let w_bury = if with_event.iter().any(|(_, d)| *d < 125) && blocks_left > 5 { 16 } else { 0 };
         let w_reorg = if hdrs >= 1 && blocks_left > 5 { if with_event.is_empty() { 2 } else { 6 } } else { 0 };
         let w_probe = if h.max_forgotten > 0 { 6 } else { 0 };
+        // confirmed unilateral closes with HTLC outputs that still have something to sweep
+        let htlc_work: Vec<usize> = sweepable
+            .iter()
+            .copied()
+            .filter(|i| {
+                uni_status(&h.chans[*i], &h.chain).map(|st| st.has_htlcs).unwrap_or(false)
+                    && (!h.unspent_htlcs(*i).is_empty() || !h.unswept_spenders(*i).is_empty())
+            })
+            .collect();
+        // fully swept (ghost) closes whose last required sweep is HTLC-related and above the main sweep
+        let reorg_last: Vec<(usize, u32)> = ready
+            .iter()
+            .copied()
+            .filter_map(|i| {
+                let st = uni_status(&h.chans[i], &h.chain)?;
+                if st.has_htlcs && st.qualifies() && st.last_is_htlc {
+                    let d = h.chain.depth_of(st.last_h);
+                    if d <= hdrs && blocks_left >= d + 112 {
+                        return Some((i, d));
+                    }
+                }
+                None
+            })
+            .collect();
+        let w_htlc = if htlc_work.is_empty() || blocks_left < 12 {
+            0
+        } else if htlc_work.iter().any(|i| !h.unspent_htlcs(*i).is_empty()) {
+            26
+        } else {
+            10
+        };
+        let w_reorg_last = if reorg_last.is_empty() {
+            0
+        } else if reorg_last.iter().any(|(_, d)| *d <= 12) {
+            22
+        } else {
+            7
+        };
 
         let op = h.rng.weighted(&[
             w_new, w_setup, w_signcp, w_fund, w_dspend, w_close, w_sweep, w_forget, w_hb, w_restart, w_mine, w_bury,
-            w_reorg, w_probe,
+            w_reorg, w_probe, w_htlc, w_reorg_last,
         ]);
         match op {
             0 => {
@@ -1553,10 +2672,46 @@ fn run_history(rng: &mut Rng, r: &mut Report, ctx: Value, steps: u32) {
                         }
                         if h.connect(txs) {
                             h.r.count(&format!("event.close.{:?}", kind));
+                            if kind != CloseKind::Mutual {
+                                let nh = h.chans[ci].closes[k].htlcs.len();
+                                if nh > 0 {
+                                    h.r.count("close.unilateral_with_htlcs");
+                                    let anchors = h.chans[ci].setup.as_ref().map(|s| s.commitment_type != CommitmentType::StaticRemoteKey).unwrap_or(false);
+                                    h.r.count(if anchors { "close.unilateral_with_htlcs.anchors" } else { "close.unilateral_with_htlcs.static-remotekey" });
+                                    h.r.count(&format!("close.unilateral_with_htlcs.{:?}", kind));
+                                    h.r.count(&format!("close.unilateral_with_htlcs.{}-htlc-outputs", nh));
+                                    let no = h.chans[ci].closes[k].htlcs.iter().filter(|x| x.ours_offered).count();
+                                    h.r.count_n("close.unilateral_with_htlcs.outputs-offered-by-node", no as u64);
+                                    h.r.count_n("close.unilateral_with_htlcs.outputs-received-by-node", (nh - no) as u64);
+                                } else {
+                                    h.r.count("close.unilateral_without_htlcs");
+                                }
+                            }
                             if kind != CloseKind::Mutual && h.chans[ci].closes[k].ours.is_empty() {
                                 h.r.count("event.close.unilateral-without-node-output");
                             }
                         }
+                    }
+                }
+            }
+            6 if !htlc_work.is_empty() && h.rng.chance(1, 2) => {
+                // one HTLC-related step: spend an HTLC output, or sweep the output of such a spender
+                let ci = *h.rng.pick(&htlc_work);
+                let unspent = h.unspent_htlcs(ci);
+                let spenders = h.unswept_spenders(ci);
+                let tx = if !unspent.is_empty() && (spenders.is_empty() || h.rng.bool()) {
+                    let hi = *h.rng.pick(&unspent);
+                    let second = h.rng.chance(2, 3);
+                    h.htlc_spend_tx(ci, hi, second)
+                } else if !spenders.is_empty() {
+                    let (t, _, _) = spenders[h.rng.usize(spenders.len())];
+                    h.spender_output_sweep_tx(ci, t)
+                } else {
+                    None
+                };
+                if let Some(tx) = tx {
+                    if h.try_include(tx) {
+                        h.r.count("event.sweep.htlc-related");
                     }
                 }
             }
@@ -1698,6 +2853,16 @@ fn run_history(rng: &mut Rng, r: &mut Report, ctx: Value, steps: u32) {
                 }
                 h.heartbeat();
             }
+            14 => {
+                let pref: Vec<usize> = htlc_work.iter().copied().filter(|i| !h.unspent_htlcs(*i).is_empty()).collect();
+                let ci = if pref.is_empty() { *h.rng.pick(&htlc_work) } else { *h.rng.pick(&pref) };
+                h.htlc_macro(ci);
+            }
+            15 => {
+                let near: Vec<(usize, u32)> = reorg_last.iter().copied().filter(|(_, d)| *d <= 12).collect();
+                let (ci, _) = if near.is_empty() { reorg_last[h.rng.usize(reorg_last.len())] } else { near[h.rng.usize(near.len())] };
+                h.reorg_last_macro(ci);
+            }
             _ => {
                 // probe the id rule: ids at or below the highest forgotten one
                 let m = h.max_forgotten;
@@ -1798,17 +2963,30 @@ fn main() {
     report.require("idrule.antecedent", 100);
     report.require("idrule.refused.after-restart", 30);
     report.require("history.completed", if quick { 200 } else { 2000 });
+    // the HTLC situations must really have been reached
+    report.require("close.unilateral_with_htlcs", if quick { 50 } else { 1000 });
+    report.require("close.unilateral_with_htlcs.Holder", if quick { 20 } else { 300 });
+    report.require("close.unilateral_with_htlcs.Counterparty", if quick { 10 } else { 200 });
+    report.require("htlc.second_level_tx_confirmed", if quick { 50 } else { 1000 });
+    report.require("htlc.second_level_output_swept", if quick { 50 } else { 1000 });
+    report.require("htlc.direct_spend_confirmed", if quick { 50 } else { 1000 });
+    report.require("htlc.sweep_reorged_out_main_sweep_kept", if quick { 10 } else { 200 });
+    report.require("survived.partial_sweep_100_blocks.htlc-output-unspent", if quick { 50 } else { 1000 });
+    report.require("survived.partial_sweep_100_blocks.second-level-output-unspent", if quick { 50 } else { 1000 });
+    report.require("survived.htlc_sweep_reorged_out_100_blocks", if quick { 50 } else { 1000 });
+    report.require("gone.legit.unilateral-with-htlcs", if quick { 10 } else { 200 });
     finish(
         report,
         FinishSpec {
             cli: &cli,
             level: "exploration",
-            rule: "seeded random histories over a real Node (regtest): new_channel/setup_channel/unchecked_sign_onchain_tx/sign counterparty commitment/forget_channel/get_heartbeat/restart interleaved with a harness-built chain (funding, funding-input double-spend, mutual close, holder/counterparty unilateral close, sweeps, burial runs ending at 98..130 confirmations, reorgs). Oracle 1 after every heartbeat/restart/forget: Ready channel missing from get_channel or get_node_channels => forget requested and ghost event (double-spend | mutual | unilateral with all node outputs spent) has >= 99 confirmations on the harness's best chain. Oracle 2: new_channel(d <= highest forgotten dbid) must not create a channel. evaluations = per-channel checks + new_channel/forget calls; distinct = (observation point, chain situation, depth bucket, forget flag, gone?, reorged?) and (dbid relation, outcome, forgotten-before?, restarted?)",
+            rule: "seeded random histories over a real Node (regtest): new_channel/setup_channel/unchecked_sign_onchain_tx/sign counterparty commitment/forget_channel/get_heartbeat/restart interleaved with a harness-built chain (funding, funding-input double-spend, mutual close, holder/counterparty unilateral close, sweeps, burial runs ending at 98..130 confirmations, reorgs). Half of the channels are advanced through the real commitment flow to commitment 1 with 1-3 HTLCs (offered and received, 20k-200k sat), so their unilateral closes carry HTLC outputs; the chain then carries the node's second-level HTLC-timeout/HTLC-success transactions (holder commitment), direct spends of HTLC outputs, sweeps of the outputs of those spenders, partial sweeps left for 100-130 blocks with forget requested, and reorgs that remove only the last HTLC-related sweep while the main-output sweep stays (not re-mined / re-mined 100+ blocks later / re-mined at once). Oracle 1 after every heartbeat/restart/forget: Ready channel missing from get_channel or get_node_channels => forget requested and ghost event (double-spend | mutual | unilateral with the main node output, every HTLC output the node offered, and the output of every second-level transaction of the node that spent such an HTLC output, all spent; confirmations counted from the last of them) has >= 99 confirmations on the harness's best chain. Oracle 2: new_channel(d <= highest forgotten dbid) must not create a channel. evaluations = per-channel checks + new_channel/forget calls; distinct = (observation point, chain situation, depth bucket, forget flag, gone?, reorged?) and (dbid relation, outcome, forgotten-before?, restarted?)",
             assumptions: vec![
                 "blocks are delivered the way the protocol handler does: tracker.add_block/remove_block with a valid TxoProof followed by persister.update_tracker".into(),
                 "'buried by the required number of blocks' = 100 confirmations counting the confirming block; one block of slack is given (only < 99 is flagged)".into(),
                 "'forgotten' for the id rule = forget_channel returned Ok for a channel (stub or ready) that existed".into(),
-                "closing commitments carry no HTLCs (HTLC tracking is C14's subject); the node-owned output is to_local / to_remote of commitment 0".into(),
+                "node-owned outputs of a unilateral close = to_local / to_remote, the HTLC outputs the node offered (it gets them back by timeout), and the outputs of its own second-level transactions for those; HTLC outputs the node received are NOT required to be swept by the ghost (the signer tracks them only while it holds the preimage, which is kept in memory only until the node state is persisted again), nor is the output of a foreign transaction that claimed an HTLC output (the signer waits for it: counted as liveness.eligible-not-pruned.signer-waits-for-more-htlc-related-outputs)".into(),
+                "channels that are not advanced close with commitment 0 without HTLCs; advanced channels close with commitment 1 (current on both sides, commitment 0 revoked on both sides)".into(),
                 "stubs are pruned by age and are outside the property (counted only)".into(),
                 "a panic or refusal while processing a block abandons the history (reported as a note, not as a C15 violation)".into(),
             ],
